@@ -57,7 +57,8 @@ Proof. exact step_refines. Qed.
 Print Assumptions refines_dict.
 
 (* The keys keep the insertion order of the built-in dict (an overwritten key keeps its place, a new key goes to
-   the end; popitem's reference is the item inserted last) — for every operation but update / |=, also in the F6 shape. *)
+   the end, update / |= append new keys in the order of their first occurrence in the argument; popitem's reference is
+   the item inserted last) — for every operation, also in the F6 shape. *)
 Theorem insertion_order_is_the_dicts :
   forall (kv vv : Z -> option Z) (tgt : target) (m : amap) (o : op),
     order_ok kv vv m o (step kv vv tgt m o) = true.
